@@ -155,7 +155,12 @@ def r11_function_steps(ctx, steps, rule='R11'):
                 if kind != 'wrap' or not isinstance(y.value, ast.Call):
                     continue
                 call = y.value
-                cfg = [a for a in call.args if not (isinstance(a, ast.Name) and a.id == rl.var)]
+                try:
+                    call = ctx.res.effective_call(call, fi.module, fi)      # configuration pre-bound with functools.partial counts
+                except Exception:
+                    pass
+                cfg = [a for a in list(call.args) + [k.value for k in call.keywords]
+                       if not (isinstance(a, ast.Name) and a.id == rl.var)]
                 stream_idx = [i for i, a in enumerate(call.args) if isinstance(a, ast.Name) and a.id == rl.var]
                 n += 1
                 cfg_roots = set()
